@@ -1,6 +1,7 @@
 package gen
 
 import (
+	"regexp"
 	"fmt"
 	"sort"
 	"strconv"
@@ -873,6 +874,9 @@ var rwTail = []string{
 	"[limit(5; repeat(1))]", "last(range(5))", "[range(0; 10; 3)]", "until(. > 4; . + 1)", "[while(. < 3; . + 1)]",
 }
 
+var bareScalar = regexp.MustCompile(`(true|false|null|-?[0-9]+(?:\.[0-9]+)?)`)
+var quotedScalar = regexp.MustCompile(`"(true|false|null|-?[0-9]+(?:\.[0-9]+)?|[a-z])"`)
+
 // RewriteBiased generates programs aimed at the optimization preconditions.
 func RewriteBiased(conf Conf) *rapid.Generator[Prog] {
 	small := conf
@@ -896,6 +900,22 @@ func RewriteBiased(conf Conf) *rapid.Generator[Prog] {
 				core = constLiteral(t, 3)
 			} else {
 				core = pick(t, "lit", rwLiterals)
+			}
+			if rapid.IntRange(0, 2).Draw(t, "pairlit") == 0 {
+				// two constant literals in one program: the same one again, or a
+				// look-alike (scalars quoted / unquoted, strings split at blanks)
+				c.feat("rw/literal-pair")
+				other := core
+				switch rapid.IntRange(0, 3).Draw(t, "lookalike") {
+				case 0:
+					other = bareScalar.ReplaceAllString(core, "\"$1\"")
+				case 1:
+					other = quotedScalar.ReplaceAllString(core, "$1")
+				case 2:
+					other = pick(t, "lit2", []string{"[1]", "[\"1\"]", "[true,null]", "[\"true\",null]", "[\"a b\"]", "[\"a\",\"b\"]", "[1,2]", "[\"1 2\"]", "[[1]]", "[\"[1]\"]", "[null]", "[\"<nil>\"]", "[1.5]", "[\"1.5\"]", "{\"a\":[1]}", "{\"a\":[\"1\"]}", "[]", "[[]]", "[\"\"]", "[{}]", "[\"map[]\"]"})
+					core = pick(t, "lit1", []string{"[1]", "[\"1\"]", "[true,null]", "[\"a b\"]", "[\"a\",\"b\"]", "[1,2]", "[[1]]", "[null]", "[1.5]", "{\"a\":[1]}", "[]", "[\"\"]", "[{}]"})
+				}
+				core = strings.NewReplacer("%1", core, "%2", other).Replace(pick(t, "pairform", []string{"(%1), (%2)", "[%1, %2]", "(%1) == (%2)", "{a: %1, b: %2}", "[(%1), (%2), (%1)] | unique | length", "(%2), (%1)", "[(%1) | tojson, ((%2) | tojson)]", "(%1) as $p | (%2) as $q | [$p, $q, $p == $q]", "def f: %1; def g: %2; [f, g, f]"}))
 			}
 		case 2, 3:
 			c.feat("rw/args")
